@@ -56,9 +56,14 @@ func ProcessSchedPart(run *report.Run, st *Setup, n int, kinds map[string]bool) 
 		r := rng.Derive(uint64(run.Seed), run.Prop+"-proc", fmt.Sprint(i))
 		pf := spec.DefaultProfile()
 		pf.MinTargets, pf.MaxTargets, pf.SleepMs, pf.EdgeProb = 6, 14, 60, 30
+		pf.NoCache = true
 		s := spec.Gen(r, pf)
 		gcfg := randCfg(r)
 		gcfg.NumWorkers = r.Range(1, 8)
+		minimal := r.Chance(1, 2)
+		if minimal {
+			gcfg.LoadOutputs = "minimal"
+		}
 		env, err := NewEnv(st.Base, fmt.Sprintf("p%d", i), st.Grog, st.Vctl, s, gcfg)
 		if err != nil {
 			run.Infra(err.Error())
@@ -70,7 +75,7 @@ func ProcessSchedPart(run *report.Run, st *Setup, n int, kinds map[string]bool) 
 				env.Cleanup()
 			}
 		}()
-		cfg := BuildCfg{EnableCache: true}
+		cfg := BuildCfg{EnableCache: true, Minimal: minimal}
 		for k := 0; k < 3; k++ {
 			if k > 0 {
 				// invalidate a few targets so that executed and restored targets are mixed
